@@ -48,9 +48,17 @@ impl LanguageServer {
         let stdin = tokio::io::stdin();
         let mut framed_read = FramedRead::new(stdin, io::LSCodec);
 
-        phases::initialization(&mut self, &mut framed_read, iotx.clone())
+        let next = phases::initialization(&mut self, &mut framed_read, iotx.clone())
             .await
             .wrap_err("Unexpected error occured during initialization")?;
+        if matches!(next, phases::Next::Exit) {
+            // ungraceful exit, but only after everything already answered is written out
+            drop(iotx);
+            for handle in handles {
+                handle.await.expect("Cannot await handle");
+            }
+            std::process::exit(1);
+        }
 
         // spawn thread which handles document synchronization
         let (doctx, docrx) = mpsc::channel(32);
@@ -60,9 +68,18 @@ impl LanguageServer {
             self.client_details.diagnostics,
         )));
 
-        phases::main(&mut framed_read, iotx.clone(), doctx.clone())
+        let next = phases::main(&mut framed_read, iotx.clone(), doctx.clone())
             .await
             .wrap_err("Unexpected error occured during main phase")?;
+        if matches!(next, phases::Next::Exit) {
+            // ungraceful exit, but only after everything already answered is written out
+            drop(iotx);
+            drop(doctx);
+            for handle in handles {
+                handle.await.expect("Cannot await handle");
+            }
+            std::process::exit(1);
+        }
 
         phases::shutdown(&mut framed_read, iotx)
             .await
@@ -91,6 +108,13 @@ mod phases {
     use tokio::{io::Stdin, sync::mpsc::Sender};
     use tokio_util::codec::FramedRead;
 
+    /// How a phase ended: go on with the next phase,
+    /// or `exit` was received before `shutdown` (ungraceful exit).
+    pub(super) enum Next {
+        Continue,
+        Exit,
+    }
+
     macro_rules! respond {
         ($request:ident, $method:path, $doctx:expr) => {{
             let (params, response) = $request.split();
@@ -115,7 +139,7 @@ mod phases {
         ls: &mut LanguageServer,
         framed_read: &mut FramedRead<Stdin, LSCodec>,
         iotx: Sender<Message>,
-    ) -> Result<()> {
+    ) -> Result<Next> {
         while let Some(frame) = framed_read.next().await {
             let message = frame.wrap_err("Recieved frame with error")?;
             match message {
@@ -138,7 +162,7 @@ mod phases {
                 }
                 Message::Notification(notification) => {
                     if notification.method.as_str() == Exit::METHOD {
-                        std::process::exit(1) // ungraceful exit
+                        return Ok(Next::Exit); // ungraceful exit
                     }
                 }
                 Message::Response(response) => {
@@ -160,7 +184,7 @@ mod phases {
                 }
                 Message::Notification(notification) => match notification.method.as_str() {
                     Initialized::METHOD => break, // Server is properly initialized and can start working
-                    Exit::METHOD => std::process::exit(1), // ungraceful exit
+                    Exit::METHOD => return Ok(Next::Exit), // ungraceful exit
                     _ => { /* drop all other notifications */ }
                 },
                 Message::Response(response) => {
@@ -168,14 +192,14 @@ mod phases {
                 }
             };
         }
-        Ok(())
+        Ok(Next::Continue)
     }
 
     pub(super) async fn main(
         framed_read: &mut FramedRead<Stdin, LSCodec>,
         iotx: Sender<Message>,
         doctx: Sender<DocumentRequest>,
-    ) -> Result<()> {
+    ) -> Result<Next> {
         while let Some(frame) = framed_read.next().await {
             let message = frame.wrap_err("Recieved frame with error")?;
             match message {
@@ -193,7 +217,7 @@ mod phases {
                             let (_, response) = request.split();
                             let response = response.into_result_response(Value::Null);
                             iotx.send(Message::Response(response)).await?;
-                            return Ok(());
+                            return Ok(Next::Continue);
                         }
                         GotoDeclaration::METHOD => {
                             respond!(request, features::goto::declaration, doctx.clone())
@@ -260,7 +284,7 @@ mod phases {
                         DidCloseTextDocument::METHOD => {
                             note!(notification, document::close, doctx.clone());
                         }
-                        Exit::METHOD => std::process::exit(1), // ungraceful exit
+                        Exit::METHOD => return Ok(Next::Exit), // ungraceful exit
                         _ => { /* drop all other notifications */ }
                     };
                 }
@@ -269,7 +293,7 @@ mod phases {
                 }
             }
         }
-        Ok(())
+        Ok(Next::Continue)
     }
 
     pub(super) async fn shutdown(
